@@ -437,10 +437,10 @@ RULE = ("expression cases: random trees of depth 1-5 over constants, free atoms 
 TRUSTED_BASE = [
     "Coq 8.16.1 kernel; vm_compute for evaluating the model on generated cases (PrimFloat primitives in the execution-only file coq/C10/FloatInst.v)",
     "hand-written models coq/C10/Model.v (par_evaluate, par_regref_deps, _eval_evalf, decomposition table) and coq/C10/Engine.v "
-    "(Measurement.apply store, BaseEngine._run forwarding, bind_params, the sympy symbol cache as a global table), tied to /repo by the correspondence on generated inputs",
+    "(Measurement.apply store, BaseEngine._run hand-over of the latest outcome per mode, bind_params), tied to /repo by the correspondence on generated inputs",
     "harness tools/props/c10.py: generators, tree -> sympy builder, reference evaluator on Python floats, numpy's elementary functions used as the function table of the model",
     "sympy (Symbol cache, lambdify) and numpy are library code whose effects are observed, not verified",
-    "gaussian backend used as the observer of 'behaves like the substituted circuit' (means and covariance compared to 1e-7)",
+    "gaussian backend (means and covariance) and fock backend (density matrix, cutoff 5) used as observers of 'behaves like the substituted circuit' (1e-7); compiled circuits of gaussian_unitary / passive compared matrix by matrix (1e-8)",
 ]
 ASSUMPTIONS = [
     "scalars are abstract in the theorems (any interpretation of + * / - and of the function table); floating-point rounding is outside the theorems and enters only through the 1e-8 tolerance of the correspondence",
@@ -450,11 +450,13 @@ ASSUMPTIONS = [
 MANIFEST_TEXT = ("C10 (proof, closed under the global context, scalars and elementary functions abstract): full - C10_subst_eval "
                  "(substitution of numbers for any subset of atoms commutes with evaluation), C10_no_silent_default (ParameterError iff an "
                  "atom is unbound/unmeasured), C10_deps_exact + C10_eval_depends_only_on_deps, C10_latest / C10_use_sees_latest / "
-                 "C10_use_before_measure (all histories of measure / re-prepare / use / reset of one program), C10_segments_ideal, "
+                 "C10_use_before_measure (all histories of measure / re-prepare / use / reset), C10_segments (the engine's hand-over of the "
+                 "latest outcome per mode, eager or lazy program construction: segment after segment = the concatenated program), "
                  "C10_bind_unknown_raises / C10_bind_value / C10_bind_frame, C10_decomp_commutes (10 table entries, daggered or not); "
-                 "refuted for the code as written: C10_segments_as_written_refuted, C10_segments_as_written_wrong_mode_refuted (finding "
-                 "run:cross-segment-measured-value).  Not modelled (observed by the search only): sympy's symbol/expression caches "
-                 "(findings cache:*), optimize_circuit (findings optimize:*), the compilers other than decomposition.")
+                 "C10_segments_old_refuted / C10_segments_old_wrong_mode_refuted are about the pre-fix definitions *_old only.  Not modelled "
+                 "(observed by the search only): sympy's symbol/expression caches (known findings cache:* about FreeParameter), "
+                 "optimize_circuit, the compilers other than decomposition (fock backend and fock / gaussian_unitary / passive compile "
+                 "targets are covered by the symbolic-vs-substituted search).")
 
 NAMES = ["a", "b", "c", "d"]
 NAME_IDS = {n: i for i, n in enumerate(NAMES)}
@@ -872,7 +874,7 @@ def correspondence(ctx):
 
 
 def search(ctx):
-    for fn in (globals().get("search_corpus"), globals().get("search_expr"), globals().get("search_programs"), globals().get("search_cross"), globals().get("search_decomp")):
+    for fn in (globals().get("search_corpus"), globals().get("search_programs"), globals().get("search_cross"), globals().get("search_backends")):
         if fn:
             fn(ctx)
 
@@ -951,6 +953,15 @@ def gen_param_tree(rng, kind, pool, free, store):
     return 0.25
 
 
+def nonzero_first(trees):
+    """Gate.apply skips a gate whose first parameter is numerically 0 without looking at the others: an
+    unmeasured atom in the phase of such an identity gate legitimately never raises.  Keep p[0] != 0 when
+    another parameter is symbolic."""
+    if len(trees) > 1 and isinstance(trees[0], (int, float)) and trees[0] == 0 and any(atoms(t) for t in trees[1:]):
+        trees[0] = 0.25
+    return trees
+
+
 def gen_prog_spec(rng, err=False, segs=None, cross=None):
     n = rng.randint(2, 4)
     names = rng.sample(NAMES, rng.randint(1, 3))
@@ -1007,7 +1018,7 @@ def gen_prog_spec(rng, err=False, segs=None, cross=None):
                         bind.pop(unbound_name, None)
                         defaults.pop(unbound_name, None)
                     p = [["free", unbound_name]]
-            trees = [gen_param_tree(rng, k, p, free, store) for k in kinds]
+            trees = nonzero_first([gen_param_tree(rng, k, p, free, store) for k in kinds])
             cmds.append([name, trees, modes, name in GATES_WITH_H and rng.random() < 0.25, None])
         seg_of.append(seg)
     nsegs = seg + 1
@@ -1035,7 +1046,8 @@ def spec_features(spec):
         for c in seg:
             ats = [a for t in c[1] for a in atoms(t)]
             for k, a in ats:
-                seen_syms.setdefault((k, a), set()).add(si)
+                if k == "free":
+                    seen_syms.setdefault((k, a), set()).add(si)
                 if k == "meas":
                     f["uses_measured"] = True
                     if si > 0 and last_seg and last_seg.get(a, -1) < si:
@@ -1061,37 +1073,30 @@ def spec_features(spec):
 
 
 class _unshared_symbols:
-    """Diagnosis only: make parameter symbols of different Programs distinct sympy objects that do not
-    compare equal (uncached construction; identity of the RegRef / of the FreeParameter is part of the
-    hashable content), i.e. what the library would do if symbols were not shared through sympy's caches."""
+    """Diagnosis only: make the FreeParameter symbols of different Programs distinct sympy objects that do not
+    compare equal (uncached construction; identity is part of the hashable content), i.e. what the library
+    would do if free parameters were not shared through sympy's caches (MeasuredParameter already is like
+    this since fix cf8f0c2)."""
 
     def __enter__(self):
         import sympy
-        M, F = sfpar.MeasuredParameter, sfpar.FreeParameter
-        self.saved = (M.__dict__.get("__new__"), M.__dict__.get("_hashable_content"), F.__dict__.get("__new__"), F.__dict__.get("_hashable_content"))
-
-        def m_new(cls, regref):
-            obj = sympy.Symbol.__xnew__(cls, "q" + str(regref.ind))
-            obj.regref = regref
-            return obj
+        F = sfpar.FreeParameter
+        self.saved = (F.__dict__.get("__new__"), F.__dict__.get("_hashable_content"))
 
         def f_new(cls, name):
             return sympy.Symbol.__xnew__(cls, name)
 
-        M.__new__ = staticmethod(m_new)
-        M._hashable_content = lambda self: sympy.Symbol._hashable_content(self) + (id(self.regref),)
         F.__new__ = staticmethod(f_new)
         F._hashable_content = lambda self: sympy.Symbol._hashable_content(self) + (id(self),)
         return self
 
     def __exit__(self, *a):
-        M, F = sfpar.MeasuredParameter, sfpar.FreeParameter
-        for cls, (nw, hc) in ((M, self.saved[:2]), (F, self.saved[2:])):
-            for name, v in (("__new__", nw), ("_hashable_content", hc)):
-                if v is None:
-                    delattr(cls, name)
-                else:
-                    setattr(cls, name, v)
+        F = sfpar.FreeParameter
+        for name, v in (("__new__", self.saved[0]), ("_hashable_content", self.saved[1])):
+            if v is None:
+                delattr(F, name)
+            else:
+                setattr(F, name, v)
         import sympy.core.cache as sc
         sc.clear_cache()
 
@@ -1102,12 +1107,38 @@ def run_spec_isolated(spec):
         return run_spec(spec, True)
 
 
+def truncate_before_param_error(spec):
+    """The spec cut just before the first command one of whose parameters cannot be evaluated in program order."""
+    free = dict(spec.get("defaults", {}), **spec.get("bind", {}))
+    store, segs = {}, []
+    for seg in spec["segs"]:
+        out = []
+        segs.append(out)
+        for c in seg:
+            try:
+                for t in c[1]:
+                    tree_eval(t, free, store)
+            except RefParamError:
+                return dict(spec, segs=segs)
+            out.append(c)
+            if c[0] in MEAS_OPS and len(c) > 4 and c[4] is not None:
+                for m in c[2]:
+                    store[m] = [c[4]]
+    return spec
+
+
 def prog_predicate(spec):
     """None if the symbolic program behaves like the substituted one, else (signature, what)."""
     a = run_spec(spec, True)
     b = run_spec(spec, False)
     if same_result(a, b):
         return None
+    if b.get("stage") == "build" and b["error"] == "ParameterError" and a["error"] not in (None, "ParameterError"):
+        # something unrelated to parameters fails before the unevaluable parameter is reached (e.g. a
+        # post-selection of zero probability): the substituted circuit up to that point must fail alike
+        bt = run_spec(truncate_before_param_error(spec), False)
+        if bt["error"] == a["error"]:
+            return None
     f = spec_features(spec)
     sym = "raises %s (%s)" % (a["error"], a.get("detail", "")[:120]) if a["error"] else "runs"
     sub = "raises %s (%s)" % (b["error"], b.get("detail", "")[:120]) if b["error"] else "runs"
@@ -1115,23 +1146,20 @@ def prog_predicate(spec):
     if f["shared_symbol"] and f["segments"] > 1:
         iso = run_spec_isolated(spec)
         if same_result(iso, b):
-            return ("cache:symbol-shared-between-programs", what + "; with parameter symbols that are not shared between Program objects the two agree")
-    if spec.get("precompile") and f["uses_measured"] and a["error"] == "AttributeError":
-        return ("compile:compiled-program-with-measured-parameter", what + " [a compiled Program holding a MeasuredParameter is compiled again by the engine: _linked_copy deep-copies Program.source]")
-    if spec.get("optimize") and a["error"] == "TypeError" and "Relational" in a.get("detail", ""):
-        return ("optimize:channel-merge-symbolic", what + " [optimize=True: Channel.merge calls np.allclose on a symbolic product of transmissivities]")
-    if f["cross_segment_use"]:
-        return ("run:cross-segment-measured-value", what + " [a later segment uses a value measured in an earlier segment]")
-    if spec.get("optimize") and f["uses_measured"]:
-        noopt = dict(spec, optimize=False)
-        if same_result(run_spec(noopt, True), b):
-            return ("optimize:measured-parameter-gates-merged", what + " [optimize=True and gates with measured parameters; without optimize the symbolic program agrees with the substituted one]")
+            return ("cache:free-parameter-shared-between-programs", what + "; with FreeParameter symbols that are not shared between Program objects the two agree")
     kind = a["error"] or ("state" if not b["error"] else "no-error")
     return ("program:" + kind, what)
 
 
 def prog_nontrivial(spec, f):
     return f["remeasured_use"] or f["segments"] > 1 or any(k == "meas" for s in spec["segs"] for c in s for t in c[1] for k, _ in atoms(t))
+
+
+import json  # noqa: E402
+
+# minimised inputs of findings that have been fixed in /repo (known_findings.d/C10-fixed.txt): replayed on
+# every run; a regression is reported under a "regression:" signature, which is never a known finding
+REGRESSIONS = json.loads(r'''{"cross-segment": {"check": "prog", "spec": {"n": 2, "segs": [[["Sgate", [0.5, 0.3], [0], false, null], ["BSgate", [0.4, 0.1], [0, 1], false, null], ["MeasureHomodyne", [0.0], [1], false, 0.37]], [["Xgate", [["mul", ["meas", 1], 2.0]], [0], false, null]]], "bind": {}, "defaults": {}}}, "cross-segment-wrong-mode": {"check": "prog", "spec": {"n": 2, "segs": [[["Sgate", [0.5, 0.3], [0], false, null], ["BSgate", [0.4, 0.1], [0, 1], false, null], ["MeasureHomodyne", [0.0], [1], false, 0.37]], [["Xgate", [["mul", ["meas", 0], 2.0]], [1], false, null]]], "bind": {}, "defaults": {}}}, "cache-shared-symbol": {"check": "prog", "spec": {"n": 2, "segs": [[["MeasureHomodyne", [0.0], [0], false, 0.3], ["Xgate", [["meas", 0]], [1], false, null]], [["MeasureHomodyne", [0.0], [0], false, -0.8], ["Zgate", [["meas", 0]], [1], false, null]]], "bind": {}, "defaults": {}}}, "optimize-measured-pair": {"check": "prog", "spec": {"n": 2, "optimize": true, "segs": [[["Sgate", [0.5, 0.3], [0], false, null], ["MeasureHomodyne", [0.0], [0], false, 0.37], ["Rgate", [["meas", 0]], [1], false, null], ["Rgate", [["meas", 0]], [1], false, null], ["Xgate", [0.5], [1], false, null]]], "bind": {}, "defaults": {}}}, "compiled-measured": {"check": "prog", "spec": {"n": 2, "precompile": "gaussian", "segs": [[["MeasureHomodyne", [0.0], [0], false, 0.3], ["Xgate", [["meas", 0]], [1], false, null]]], "bind": {}, "defaults": {}}}, "optimize-channel-symbolic": {"check": "prog", "spec": {"n": 1, "optimize": true, "segs": [[["LossChannel", [0.5], [0], false, null], ["LossChannel", [["pow", ["fn", "cos", ["free", "d"]], 2]], [0], false, null]]], "bind": {"d": 0.4}, "defaults": {}}}}''')
 
 
 def search_corpus(ctx):
@@ -1147,12 +1175,17 @@ def search_corpus(ctx):
             bad = prog_predicate(d["spec"])
         elif d.get("check") == "expr":
             bad = expr_predicate(d["case"])
-        elif d.get("check") in ("cross", "decomp", "history", "stale", "bind"):
+        elif d.get("check") in ("cross", "decomp", "history", "stale", "bind", "compile"):
             fn = globals().get(d["check"] + "_predicate")
             bad = fn(d) if fn else None
         ctx.case({"kind": "corpus", "file": os.path.basename(path)}, nontrivial=True, bucket="corpus")
         if bad:
             ctx.counterexample(bad[0], bad[1], d)
+    for name, d in sorted(REGRESSIONS.items()):
+        bad = prog_predicate(d["spec"])
+        ctx.case({"kind": "regression", "name": name}, nontrivial=True, bucket="regression")
+        if bad:
+            ctx.counterexample("regression:" + name, "fixed finding is back: " + bad[1], d)
 
 
 def search_programs(ctx):
@@ -1234,10 +1267,6 @@ def gen_history(rng):
                     ks = sorted(measured)      # mostly valid: outcomes that exist at this point
                 elif stale and rng.random() < 0.7:
                     ks = stale                 # outcomes from before a reset: must raise
-                if mode == "eager":
-                    # eager construction shares q[k].par symbols between segment programs through the sympy
-                    # cache (finding cache:symbol-shared-between-programs): keep the indices disjoint
-                    ks = [k for k in ks if all(k not in u for j, u in enumerate(segs_used(segs)) )]
                 pool = [["free", nm] for nm in names] + [["meas", k] for k in rng.sample(ks, min(len(ks), rng.randint(1, 2)))] if ks else [["free", nm] for nm in names]
                 t = gen_arith_tree(rng, rng.randint(0, 2), pool)
                 if not atoms(t):
@@ -1322,7 +1351,7 @@ def enc_history(h):
     return fp, segs
 
 
-def history_predicate(d, explained=False):
+def history_predicate(d):
     """Property predicate for a history on the implementation: every use evaluates its parameter under the
     most recent outcomes (of the whole multi-segment history), ParameterError if a mode was never measured."""
     h = d["history"] if "history" in d else d
@@ -1338,11 +1367,10 @@ def history_predicate(d, explained=False):
                 want.append(ref_eval(e[1], {k: [v, None] for k, v in h["free"].items()}, store))
     for i, w in enumerate(want):
         if i >= len(log):
-            return ("run:cross-segment-measured-value" if (explained and len(h["segs"]) > 1) else "history:aborted", "run stopped with %s before use #%d" % (err, i))
+            return ("history:aborted", "run stopped with %s before use #%d" % (err, i))
         g = log[i]
         if g[0] != w[0] or (g[0] == "ok" and not close(g[1], w[1], 1e-7)):
-            cross = len(h["segs"]) > 1 and explained
-            return ("run:cross-segment-measured-value" if cross else "history:latest-outcome",
+            return ("history:latest-outcome" + ("-across-segments" if len(h["segs"]) > 1 else ""),
                     "use #%d evaluated to %r, the most recent outcomes give %r" % (i, g, w))
         if w[0] != "ok":
             break
@@ -1388,11 +1416,6 @@ def corr_history(ctx):
             elif len(log) < len(mw) and not any(w[0] != "ok" or isinstance(w[1], list) for w in mw[:len(log) + 1]):
                 bad = "implementation stopped with %s after %d uses; the model sees no error there" % (err, len(log))
         if bad:
-            # not the hand-over as written: is it the repaired one (whole store handed over, C10_segments_ideal)?
-            mi = [model_outcome(x) for x in m[1]]
-            if history_predicate(h) is None and all(i < len(mi) and g[0] == mi[i][0] and (g[0] != "ok" or close(g[1], mi[i][1], 1e-7)) for i, g in enumerate(log)):
-                ctx.hist["hist-follows-ideal-handover"] = ctx.hist.get("hist-follows-ideal-handover", 0) + 1
-                continue
             pb = history_predicate(h)
             data = {"check": "history", "history": h, "impl_log": [list(x) for x in log], "impl_error": err, "model": [list(x) for x in mw]}
             if pb:
@@ -1400,13 +1423,10 @@ def corr_history(ctx):
             else:
                 ctx.disagreement("corr:history", bad, data)
             continue
-        # the model says as-written differs from ideal here: evaluate the property on the implementation
+        # C10_segments, re-checked numerically: segment by segment = concatenation
         mi = [model_outcome(x) for x in m[1]]
         if mw != mi:
-            # explained by the model of the hand-over as written (which the implementation follows here)
-            pb = history_predicate(h, explained=True)
-            if pb:
-                ctx.counterexample(pb[0], pb[1], {"check": "history", "history": h})
+            ctx.obligation("correspondence:model-segments", False, "model run_segs and run_seg-on-concatenation differ on %r" % (h,))
 
 
 def replay_history(ctx, d):
@@ -1499,7 +1519,7 @@ def cross_predicate(d):
     with _unshared_symbols():
         iso = run_cross(d)
     if _same_obs(iso, want):
-        return ("cache:symbol-shared-between-programs", what + "; with parameter symbols that are not shared between Program objects the programs behave as on their own")
+        return ("cache:free-parameter-shared-between-programs", what + "; with FreeParameter symbols that are not shared between Program objects the programs behave as on their own")
     return ("cross:" + d["kind"], what)
 
 
@@ -1519,7 +1539,7 @@ def stale_predicate(d):
     want = 2 * 2 * d["second"]   # x = 2 * |alpha| for hbar = 2
     if abs(r2 - want) < 1e-7:
         return None
-    return ("cache:stale-symbol-after-eviction", "a new Program with %s=%r computes with %s=%r of an earlier, finished Program (mean x %r instead of %r) after %d unrelated sympy symbols were created"
+    return ("cache:stale-free-parameter-after-eviction", "a new Program with %s=%r computes with %s=%r of an earlier, finished Program (mean x %r instead of %r) after %d unrelated sympy symbols were created"
             % (d["name"], d["second"], d["name"], d["first"], r2, want, d["fill"]))
 
 
@@ -1753,5 +1773,147 @@ def replay_decomp(ctx, d):
     print("symbolic:", impl_decomp(d, True))
     print("numeric :", impl_decomp(d, False))
     bad = decomp_predicate(d)
+    print("predicate:", bad)
+    return bad is not None
+
+
+
+# ---------------------------------------------------------------------------------------
+# search S5: the fock backend, and the compile targets fock / gaussian_unitary / passive with bound free parameters
+
+FOCK_OPS = {"Dgate": (1, ["r", "a"]), "Xgate": (1, ["r"]), "Zgate": (1, ["r"]), "Sgate": (1, ["r", "a"]), "Rgate": (1, ["a"]),
+            "Pgate": (1, ["r"]), "Kgate": (1, ["r"]), "Vgate": (1, ["r"]), "BSgate": (2, ["a", "a"]), "MZgate": (2, ["a", "a"]),
+            "sMZgate": (2, ["a", "a"]), "S2gate": (2, ["r", "a"]), "CXgate": (2, ["r"]), "CZgate": (2, ["r"]), "CKgate": (2, ["r"]),
+            "LossChannel": (1, ["t"])}
+FOCK_PREPS = {"Coherent": (1, ["r", "a"]), "Squeezed": (1, ["r", "a"]), "DisplacedSqueezed": (1, ["r", "a", "r", "a"]),
+              "Thermal": (1, ["n"]), "Vacuum": (1, []), "Fock": (1, ["k"])}
+UNITARY_OPS = ["Dgate", "Xgate", "Zgate", "Sgate", "Rgate", "Pgate", "BSgate", "MZgate", "sMZgate", "S2gate", "CXgate", "CZgate"]
+PASSIVE_OPS = ["Rgate", "BSgate", "MZgate", "sMZgate", "LossChannel"]
+ALL_KINDS = dict(SYM_OPS, **FOCK_OPS)
+
+
+def gen_fock_spec(rng, err=False):
+    """Small programs for the fock backend (cutoff 5): symbolic parameters over free atoms and outcomes of
+    post-selected homodyne / Fock measurements, non-Gaussian gates included."""
+    n = rng.randint(1, 2)
+    names = rng.sample(NAMES, rng.randint(1, 2))
+    bind = {nm: round(rng.uniform(-1.0, 1.0), 3) for nm in names}
+    free = dict(bind)
+    store, cmds = {}, []
+    for _ in range(rng.randint(2, 5)):
+        pool = [["free", nm] for nm in names] + [["meas", m] for m in store] * 2
+        r = rng.random()
+        if r < 0.2:
+            m = rng.randrange(n)
+            if rng.random() < 0.5:
+                sel = round(rng.uniform(-0.8, 0.8), 3)
+                cmds.append(["MeasureHomodyne", [rng.choice([0.0, 0.4])], [m], False, sel])
+            else:
+                sel = rng.choice([0, 1])
+                cmds.append(["MeasureFock", [], [m], False, sel])
+            store[m] = [float(sel)]
+        elif r < 0.35:
+            name = rng.choice(sorted(FOCK_PREPS))
+            m = rng.choice(sorted(store)) if store and rng.random() < 0.6 else rng.randrange(n)
+            ps = [rng.choice([0, 1, 2]) if k == "k" else gen_param_tree(rng, k, pool, free, store) for k in FOCK_PREPS[name][1]]
+            cmds.append([name, ps, [m], False, None])
+        else:
+            name = rng.choice([x for x in sorted(FOCK_OPS) if FOCK_OPS[x][0] <= n])
+            nm_, kinds = FOCK_OPS[name]
+            p = pool
+            if err and rng.random() < 0.5:
+                unm = [m for m in range(n) if m not in store]
+                p = [["meas", rng.choice(unm)]] if unm else [["free", [x for x in NAMES if x not in free][0]]]
+            cmds.append([name, nonzero_first([gen_param_tree(rng, k, p, free, store) for k in kinds]), rng.sample(range(n), nm_),
+                         name not in ("LossChannel",) and rng.random() < 0.25, None])
+    spec = {"n": n, "segs": [cmds], "bind": bind, "defaults": {}, "backend": "fock", "cutoff": 5}
+    r = rng.random()
+    if r < 0.3:
+        spec["precompile"] = "fock"
+    if rng.random() < 0.3:
+        spec["optimize"] = True
+    if rng.random() < 0.3:
+        spec["bind_early"] = True
+    return spec
+
+
+def gen_compile_spec(rng, target):
+    """Measurement-free programs over free parameters only, bound before compilation (gaussian_unitary and
+    passive evaluate the parameters while compiling)."""
+    n = rng.randint(1, 4)
+    names = rng.sample(NAMES, rng.randint(1, 3))
+    bind = {nm: round(rng.uniform(-1.2, 1.2), 3) for nm in names}
+    pool = [["free", nm] for nm in names]
+    cand = UNITARY_OPS if target == "gaussian_unitary" else PASSIVE_OPS
+    cmds = []
+    modes_pool = rng.sample(range(NMODES + 4), n)     # non-contiguous, possibly descending, indices up to 8
+    for _ in range(rng.randint(1, 7)):
+        name = rng.choice([x for x in cand if ALL_KINDS[x][0] <= n])
+        nm_, kinds = ALL_KINDS[name]
+        cmds.append([name, [gen_param_tree(rng, k, pool, bind, {}) for k in kinds], rng.sample(modes_pool, nm_),
+                     name != "LossChannel" and rng.random() < 0.3, None])
+    return {"n": max(modes_pool) + 1, "segs": [cmds], "bind": bind, "defaults": {}, "target": target, "optimize": rng.random() < 0.3}
+
+
+def compiled_circuit(spec, symbolic):
+    """Compile for spec['target'] (free parameters bound first) and return the compiled commands with their
+    parameters evaluated: [(op name, [arrays], [modes], dagger)] or ('error', kind)."""
+    fresh_caches()
+    try:
+        prog = build_programs(spec, symbolic)[0]
+        if symbolic:
+            prog.bind_params({k: v for k, v in spec["bind"].items() if k in prog.free_params})
+        c = prog.compile(compiler=spec["target"], optimize=bool(spec.get("optimize")))
+        out = []
+        for cmd in c.circuit:
+            ps = [np.asarray(v, dtype=complex) for v in sfpar.par_evaluate(cmd.op.p)]
+            if cmd.op.__class__.__name__ == "Dgate":
+                # (r, phi) -> r e^{i phi}: the angle of a displacement on the negative real axis is +-pi
+                ps = [ps[0] * np.exp(1j * ps[1])]
+            out.append((cmd.op.__class__.__name__, ps, [r.ind for r in cmd.reg], bool(getattr(cmd.op, "dagger", False))))
+        return out
+    except RefParamError:
+        return ("error", "ParameterError")
+    except Exception as e:
+        return ("error", type(e).__name__ + ": " + str(e)[:120])
+
+
+def compile_predicate(d):
+    spec = d["spec"] if "spec" in d else d
+    a, b = compiled_circuit(spec, True), compiled_circuit(spec, False)
+    if isinstance(a, tuple) or isinstance(b, tuple):
+        if isinstance(a, tuple) and isinstance(b, tuple) and a[1].split(":")[0] == b[1].split(":")[0]:
+            return None
+        return ("compile:%s:error" % spec["target"], "compiling the symbolic program (parameters bound) gives %r, the substituted program %r" % (a if isinstance(a, tuple) else "a circuit", b if isinstance(b, tuple) else "a circuit"))
+    same = len(a) == len(b) and all(x[0] == y[0] and x[2] == y[2] and x[3] == y[3] and len(x[1]) == len(y[1])
+                                    and all(p.shape == q.shape and np.allclose(p, q, atol=1e-8, rtol=0) for p, q in zip(x[1], y[1])) for x, y in zip(a, b))
+    if same:
+        return None
+    return ("compile:%s:circuit" % spec["target"], "the %s-compiled symbolic program (parameters bound) differs from the compiled substituted program: %r vs %r"
+            % (spec["target"], [(x[0], x[2]) for x in a], [(x[0], x[2]) for x in b]))
+
+
+def search_backends(ctx):
+    rng = ctx.rng
+    for i in range(ctx.budget(30, 250)):
+        spec = gen_fock_spec(rng, err=(i % 8 == 0))
+        f = spec_features(spec)
+        bad = prog_predicate(spec)
+        ctx.case({"kind": "prog", "spec": spec}, nontrivial=f["uses_measured"] or bool(spec.get("precompile")), bucket="fock" + ("-precompiled" if spec.get("precompile") else ""))
+        if bad:
+            ctx.counterexample("fock:" + bad[0], bad[1], {"check": "prog", "spec": spec})
+    for i in range(ctx.budget(60, 500)):
+        target = ["gaussian_unitary", "passive"][i % 2]
+        spec = gen_compile_spec(rng, target)
+        bad = compile_predicate(spec)
+        ctx.case({"kind": "compile", "spec": spec}, nontrivial=len(spec["segs"][0]) > 1, bucket="compile-" + target)
+        if bad:
+            ctx.counterexample(bad[0], bad[1], {"check": "compile", "spec": spec})
+
+
+def replay_compile(ctx, d):
+    print("symbolic   :", compiled_circuit(d["spec"], True))
+    print("substituted:", compiled_circuit(d["spec"], False))
+    bad = compile_predicate(d)
     print("predicate:", bad)
     return bad is not None
